@@ -6,7 +6,7 @@ Never run while /repo has uncommitted changes."""
 import json, subprocess, sys, time, os
 
 def sh(cmd, cwd=None, timeout=1200):
-    p = subprocess.run(cmd, shell=True, cwd=cwd, capture_output=True, text=True, timeout=timeout)
+    p = subprocess.run(cmd, shell=True, executable='/bin/bash', cwd=cwd, capture_output=True, text=True, timeout=timeout)
     return p.returncode, p.stdout + p.stderr
 
 def main():
@@ -37,10 +37,10 @@ def main():
         rec = {'id': m['id'], 'check': m['check'], 'what': m['what'], 'expect': m.get('expect', 'fail')}
         try:
             if tests:
-                rc, o = sh('cargo test --offline 2>&1 | grep -E "^test result|error(\\[|:)" ', cwd='/repo')
+                rc, o = sh('timeout 240 cargo test --offline 2>&1 | grep -E "^test result|error(\\[|:)" ; echo "rc=${PIPESTATUS[0]}"', cwd='/repo')
                 failed = ('FAILED' in o) or ('error' in o) or ('failed' in o and ' 0 failed' not in o.replace('; 0 failed', ' 0 failed'))
                 bad = [l for l in o.splitlines() if 'test result' in l and '0 failed' not in l]
-                rec['baseline_tests'] = 'fail' if (bad or 'error' in o) else 'pass'
+                rec['baseline_tests'] = 'hang (killed after 240 s)' if 'rc=124' in o else ('fail' if (bad or 'error' in o) else 'pass')
             t0 = time.time()
             rc, o = sh(f'./check {m["check"]} --tier quick --budget-s 60', cwd='/verif')
             rec['exit'] = rc
